@@ -4,8 +4,12 @@
   are in LexprModel/Proofs/SerdeRT.lean (when present).  Proved here: the visitors of the primitive
   types never panic and reject with a data error, for every value; and the error type of the model
   has no other category.
+  Fully proved in LexprModel/Proofs/SerdeRT.lean (imported here), for every type of the universe and
+  every value: `C18_total` (never a panic), `C18_data_error` (a value or a data-category error),
+  `C18_typing` (a deserialised datum inhabits the type) and `C18_normalise` (serialising it and
+  deserialising again returns the same datum).
 -/
-import LexprModel.Serde
+import LexprModel.Proofs.SerdeRT
 namespace Lexpr
 namespace Serde
 
